@@ -51,7 +51,8 @@ impl InputModifier for DeltaLerp {
             return value;
         }
 
-        let alpha = time.delta_secs() * self.speed;
+        // Clamp to avoid overshooting the target on long frames.
+        let alpha = (time.delta_secs() * self.speed).min(1.0);
         let smoothed = self.prev_value.lerp(target_value, alpha);
         self.prev_value = smoothed;
 
